@@ -23,6 +23,9 @@ def queries(tier):
                     outside="long double (not compiled in this tree); reading 'denotes the same number' for narrowing as: correctly rounded, never finite -> infinity"))
     TXT_UNITS = ["mptcore/convert/%s.c" % f for f in ("convert_string", "convert_number", "convert_int", "cdouble", "cfloat", "cldouble", "convert_key", "valfmt_get")] + [
         "mptcore/types/type_int.c"]
+    for fmt in "yt":
+        qs.append(Q("text2int_direct_" + fmt, "C07/text2int.c", units=TXT_UNITS, harness_defines={"FMT": "'%s'" % fmt, "DIRECT": 1}, unwind_default=50,
+                    bounds="as text2int_%s, number parser (mpt_convert_number) called directly on text with 0..2 leading blanks" % fmt, outside="see text2int"))
     for fmt in "bynqiuxtl":
         qs.append(Q("text2int_" + fmt, "C07/text2int.c", units=TXT_UNITS,
                     harness_defines={"FMT": "'%s'" % fmt},
